@@ -38,8 +38,36 @@ impl<'a> Env<'a> {
     }
 }
 
-fn key_kind(t: &AType) -> Option<KeyKind> {
-    Some(match t {
+/// Whether `t` is legal as a map key / set element in `env`.
+pub fn resolves_to_key(env: &Env, t: &AType) -> bool {
+    key_kind(env, t).is_some()
+}
+
+fn key_kind(env: &Env, t: &AType) -> Option<KeyKind> {
+    // newtypes over key types (own or imported, any chain length) are keys themselves
+    let mut hops = 0;
+    let mut cur_env = Env { schema: env.schema, world: env.world };
+    let mut t = t.clone();
+    loop {
+        let next = match &t {
+            AType::Named(n) => match cur_env.def(n)? {
+                ADef::Newtype { ty, .. } => (Env { schema: cur_env.schema, world: cur_env.world }, ty.clone()),
+                _ => return None,
+            },
+            AType::Extern(s, n) => match cur_env.ext(s, n)? {
+                (e2, ADef::Newtype { ty, .. }) => (e2, ty.clone()),
+                _ => return None,
+            },
+            _ => break,
+        };
+        cur_env = next.0;
+        t = next.1;
+        hops += 1;
+        if hops > 32 {
+            return None;
+        }
+    }
+    Some(match &t {
         AType::U8 => KeyKind::U8,
         AType::I8 => KeyKind::I8,
         AType::U16 => KeyKind::U16,
@@ -139,7 +167,7 @@ pub fn conforming(env: &Env, t: &AType, r: &mut Rng, depth: usize) -> Option<RV>
             RV::Vec(v)
         }
         AType::Map(k, x) => {
-            let kk = key_kind(k)?;
+            let kk = key_kind(env, k)?;
             let n = if depth > 4 { 0 } else { r.below(3) };
             let mut entries: Vec<(Key, RV)> = Vec::new();
             for _ in 0..n {
@@ -152,7 +180,7 @@ pub fn conforming(env: &Env, t: &AType, r: &mut Rng, depth: usize) -> Option<RV>
             RV::Map(kk, entries)
         }
         AType::Set(k) => {
-            let kk = key_kind(k)?;
+            let kk = key_kind(env, k)?;
             let mut keys: Vec<Key> = Vec::new();
             for _ in 0..r.below(3) {
                 let key = rv::gen_key(r, kk);
